@@ -44,3 +44,56 @@ Theorem C13_group : forall be n1 inner1 n2 inner2 rest bark,
     = dt_instrs be (o2o_attr [TIdent n1; TGroup DParen inner1] :: o2o_attr [TIdent n2; TGroup DParen inner2] :: rest) bark.
 Proof. exact dt_o2o_group. Qed.
 Print Assumptions C13_group.
+
+(* grouping ANY number of instructions into one list, with or without the trailing comma (Lemmas/Groups.v): the list equals the
+   separate single-instruction lists, and hence the directly written attributes, in order - whatever follows, whatever the
+   arguments, both back ends *)
+From O2o.Lemmas Require Import Groups.
+
+Theorem C13_group_n_type_level : forall be l trailing rest bark,
+    Forall (fun x => ordinary be (fst x) /\ dt_stable (fst x) = true) l ->
+    dt_instrs be (o2o_attr (group_toks l trailing) :: rest) bark = dt_instrs be (singles l ++ rest) bark.
+Proof. exact dt_o2o_group_n. Qed.
+Print Assumptions C13_group_n_type_level.
+
+Theorem C13_group_n_member_level : forall be l trailing rest bark,
+    Forall (fun x => ordinary be (fst x)) l ->
+    mb_instrs be (o2o_attr (group_toks l trailing) :: rest) bark = mb_instrs be (singles l ++ rest) bark.
+Proof. exact mb_o2o_group_n. Qed.
+Print Assumptions C13_group_n_member_level.
+
+Theorem C13_group_is_bare_type_level : forall be l trailing rest bark,
+    Forall (fun x => ordinary be (fst x) /\ dt_stable (fst x) = true) l ->
+    dt_instrs be (o2o_attr (group_toks l trailing) :: rest) bark = dt_instrs be (bares l ++ rest) bark.
+Proof. exact dt_o2o_group_is_bare. Qed.
+Print Assumptions C13_group_is_bare_type_level.
+
+Theorem C13_group_is_bare_member_level : forall be l trailing rest bark,
+    Forall (fun x => ordinary be (fst x) /\ mb_stable (fst x) = true) l ->
+    mb_instrs be (o2o_attr (group_toks l trailing) :: rest) bark = mb_instrs be (bares l ++ rest) bark.
+Proof. exact mb_o2o_group_is_bare. Qed.
+Print Assumptions C13_group_is_bare_member_level.
+
+(* end to end (Lemmas/Respell.v): respelling a run of type-level instructions anywhere among the type's attributes, or the
+   instructions of any field of a struct, leaves the WHOLE outcome of the derive unchanged (same impls / same diagnostics) *)
+From O2o.Model Require Import Derive.
+From O2o.Lemmas Require Import Foreign Respell.
+
+Theorem C13_whole_derive_type_level : forall be order order_tp x pre l trailing post,
+    ri_attrs x = pre ++ o2o_attr (group_toks l trailing) :: post ->
+    Forall (fun x => ordinary be (fst x) /\ dt_stable (fst x) = true) l ->
+    raw_has_none x = false -> raw_has_none (with_attrs x (pre ++ bares l ++ post)) = false ->
+    derive_model be order order_tp x = derive_model be order order_tp (with_attrs x (pre ++ bares l ++ post)).
+Proof. exact respelling_whole_derive_type_level. Qed.
+Print Assumptions C13_whole_derive_type_level.
+
+Theorem C13_whole_derive_field : forall be order order_tp x sh fs1 f fs2 pre l trailing post attrs bark,
+    ri_data x = RStruct sh (fs1 ++ f :: fs2) -> rf_attrs f = pre ++ o2o_attr (group_toks l trailing) :: post ->
+    Forall (fun x => ordinary be (fst x) /\ mb_stable (fst x) = true) l ->
+    get_data_type_attrs be (ri_attrs x) = Ok (attrs, bark) ->
+    raw_has_none x = false ->
+    let f' := {| rf_member := rf_member f; rf_typath := rf_typath f; rf_ty := rf_ty f; rf_attrs := pre ++ bares l ++ post |} in
+    raw_has_none (with_data x (RStruct sh (fs1 ++ f' :: fs2))) = false ->
+    derive_model be order order_tp x = derive_model be order order_tp (with_data x (RStruct sh (fs1 ++ f' :: fs2))).
+Proof. exact respelling_whole_derive_field. Qed.
+Print Assumptions C13_whole_derive_field.
